@@ -59,7 +59,15 @@ enum TokenContent { Operator(TokenOp), Other(u8) }
 #[derive(Clone, Copy)]
 struct Token(Location, TokenContent);
 #[verifier::external_body]
-struct SourceParser { _p: u8 }
+struct CommentStore { _p: u8 }
+impl CommentStore {
+  #[verifier::external_body]
+  fn create_comment_reference(&mut self, comments: Vec<Comment>) -> (r: CommentReference) { unimplemented!() }
+}
+#[verifier::external_body]
+struct ParserRest { _p: u8 }
+/// R6: the parser reduced to the comment store (written by the node constructors) and an opaque rest
+struct SourceParser { comments_store: CommentStore, _rest: ParserRest }
 impl SourceParser {
   #[verifier::external_body]
   fn peek(&mut self) -> (r: Token) { unimplemented!() }
@@ -103,6 +111,205 @@ fn parse_optional_type_arguments(parser: &mut SourceParser) -> (r: Option<TypeAr
       r.bound is None ==> r.loc == r.name.loc,
 //@before let (bound, loc) = if let Token(_, TokenContent::Operator(TokenOp::Colon)) = parser.peek() {
   proof { broadcast use axiom_encloses_reflexive; }
+//@end
+
+// =====================================================================================
+// postfix expressions: the range of `object.member<TypeArgs>` and of `callee(arguments)`
+// =====================================================================================
+mod expr {
+  use super::*;
+//@extract crates/samlang-ast/src/source.rs :: mod expr / struct ExpressionCommon
+//@keeppub
+//@end
+//@extract crates/samlang-ast/src/source.rs :: mod expr / struct FieldAccess
+//@keeppub
+//@replace super::annotation::TypeArguments => super::TypeArguments ## R6: the type-argument list reduced to its range
+//@end
+//@extract crates/samlang-ast/src/source.rs :: mod expr / struct Call
+//@keeppub
+//@end
+//@extract crates/samlang-ast/src/source.rs :: mod expr / struct ParenthesizedExpressionList
+//@keeppub
+//@end
+//@extract crates/samlang-ast/src/source.rs :: mod expr / enum BinaryOperator
+//@keeppub
+//@attr #[derive(Clone, Copy)]
+//@end
+//@extract crates/samlang-ast/src/source.rs :: mod expr / struct Binary
+//@keeppub
+//@end
+//@extract crates/samlang-ast/src/source.rs :: mod expr / enum UnaryOperator
+//@keeppub
+//@attr #[derive(Clone, Copy)]
+//@end
+//@extract crates/samlang-ast/src/source.rs :: mod expr / struct Unary
+//@keeppub
+//@end
+  /// R6: the expression type reduced to the two variants built here and a rest that only has its common part
+  pub enum E<T: Clone> {
+    FieldAccess(FieldAccess<T>),
+    Call(Call<T>),
+    Binary(Binary<T>),
+    Unary(Unary<T>),
+    Other(ExpressionCommon<T>),
+  }
+  impl<T: Clone> E<T> {
+    /// `E::common().loc` of the real type: the range stored in the node's common part
+    pub open spec fn range(self) -> Location {
+      match self {
+        E::FieldAccess(n) => n.common.loc,
+        E::Call(n) => n.common.loc,
+        E::Binary(n) => n.common.loc,
+        E::Unary(n) => n.common.loc,
+        E::Other(c) => c.loc,
+      }
+    }
+    #[verifier::external_body]
+    pub fn loc(&self) -> (r: Location) ensures r == self.range() { unimplemented!() }
+  }
+}
+#[verifier::external_body]
+fn parse_parenthesized_expression_list(parser: &mut SourceParser, max_size: usize) -> (r: expr::ParenthesizedExpressionList<()>) { unimplemented!() }
+
+//@extractblock crates/samlang-parser/src/source_parser.rs :: mod expression_parser / fn parse_function_call_or_field_access_with_start
+//@from let explicit_type_arguments = super::type_parser::parse_optional_type_arguments(parser);
+//@to field_order: -1, });
+//@wrap fn field_access_node(parser: &mut SourceParser, mut function_expression: expr::E<()>, field_loc: Location, field_name: PStr, field_preceding_comments: Vec<Comment>) -> (r: expr::E<()>)
+//@replace super::type_parser::parse_optional_type_arguments => parse_optional_type_arguments ## R1: module path
+//@contract
+    ensures
+      r matches expr::E::FieldAccess(n) && *n.object == function_expression && n.field_name.loc == field_loc
+        // the member access encloses its object, and its explicit type arguments when they are written ..
+        && encloses(n.common.loc, function_expression.range())
+        && (n.explicit_type_arguments matches Some(t) ==> encloses(n.common.loc, t.location))
+        // .. and the member name when they are not (with type arguments the name lies between object and type
+        // arguments in the token stream: that needs the order of token positions, not stated here)
+        && (n.explicit_type_arguments is None ==> encloses(n.common.loc, field_loc)),  // :member_access_range_encloses_object_and_type_arguments
+//@atend
+  function_expression
+//@end
+
+//@extractblock crates/samlang-parser/src/source_parser.rs :: mod expression_parser / fn parse_function_call_or_field_access_with_start
+//@from let function_arguments = parse_parenthesized_expression_list(parser, usize::MAX);
+//@to arguments: function_arguments, })
+//@close ;
+//@wrap fn call_node(parser: &mut SourceParser, mut function_expression: expr::E<()>) -> (r: expr::E<()>)
+//@contract
+    ensures
+      r matches expr::E::Call(n) && *n.callee == function_expression
+        && encloses(n.common.loc, function_expression.range()) && encloses(n.common.loc, n.arguments.loc),  // :call_range_encloses_callee_and_argument_list
+//@atend
+  function_expression
+//@end
+
+// ---- the six binary-operator productions (|| && comparison + - * / % ::): the node built in each loop iteration
+
+//@extractblock crates/samlang-parser/src/source_parser.rs :: mod expression_parser / fn parse_disjunction_with_start
+//@from let loc =
+//@to e2: Box::new(e2), })
+//@close ;
+//@wrap fn disjunction_node(parser: &mut SourceParser, mut e: expr::E<()>, e2: expr::E<()>, operator: expr::BinaryOperator, operator_preceding_comments: CommentReference) -> (r: expr::E<()>)
+//@contract
+    ensures
+      // the node built for `e <op> e2` has e and e2 as its operands, the operator just read, and a range that encloses both operands
+      r matches expr::E::Binary(n) && *n.e1 == e && *n.e2 == e2 && n.operator is OR
+        && encloses(n.common.loc, e.range()) && encloses(n.common.loc, e2.range()),  // :binary_expression_range_encloses_both_operands
+//@atend
+  e
+//@end
+
+//@extractblock crates/samlang-parser/src/source_parser.rs :: mod expression_parser / fn parse_conjunction_with_start
+//@from let loc =
+//@to e2: Box::new(e2), })
+//@close ;
+//@wrap fn conjunction_node(parser: &mut SourceParser, mut e: expr::E<()>, e2: expr::E<()>, operator: expr::BinaryOperator, operator_preceding_comments: CommentReference) -> (r: expr::E<()>)
+//@contract
+    ensures
+      // the node built for `e <op> e2` has e and e2 as its operands, the operator just read, and a range that encloses both operands
+      r matches expr::E::Binary(n) && *n.e1 == e && *n.e2 == e2 && n.operator is AND
+        && encloses(n.common.loc, e.range()) && encloses(n.common.loc, e2.range()),  // :binary_expression_range_encloses_both_operands
+//@atend
+  e
+//@end
+
+//@extractblock crates/samlang-parser/src/source_parser.rs :: mod expression_parser / fn parse_comparison_with_start
+//@from let loc =
+//@to e2: Box::new(e2), })
+//@close ;
+//@wrap fn comparison_node(parser: &mut SourceParser, mut e: expr::E<()>, e2: expr::E<()>, operator: expr::BinaryOperator, operator_preceding_comments: CommentReference) -> (r: expr::E<()>)
+//@contract
+    ensures
+      // the node built for `e <op> e2` has e and e2 as its operands, the operator just read, and a range that encloses both operands
+      r matches expr::E::Binary(n) && *n.e1 == e && *n.e2 == e2 && n.operator == operator
+        && encloses(n.common.loc, e.range()) && encloses(n.common.loc, e2.range()),  // :binary_expression_range_encloses_both_operands
+//@atend
+  e
+//@end
+
+//@extractblock crates/samlang-parser/src/source_parser.rs :: mod expression_parser / fn parse_term_with_start
+//@from let loc =
+//@to e2: Box::new(e2), })
+//@close ;
+//@wrap fn term_node(parser: &mut SourceParser, mut e: expr::E<()>, e2: expr::E<()>, operator: expr::BinaryOperator, operator_preceding_comments: CommentReference) -> (r: expr::E<()>)
+//@contract
+    ensures
+      // the node built for `e <op> e2` has e and e2 as its operands, the operator just read, and a range that encloses both operands
+      r matches expr::E::Binary(n) && *n.e1 == e && *n.e2 == e2 && n.operator == operator
+        && encloses(n.common.loc, e.range()) && encloses(n.common.loc, e2.range()),  // :binary_expression_range_encloses_both_operands
+//@atend
+  e
+//@end
+
+//@extractblock crates/samlang-parser/src/source_parser.rs :: mod expression_parser / fn parse_factor_with_start
+//@from let loc =
+//@to e2: Box::new(e2), })
+//@close ;
+//@wrap fn factor_node(parser: &mut SourceParser, mut e: expr::E<()>, e2: expr::E<()>, operator: expr::BinaryOperator, operator_preceding_comments: CommentReference) -> (r: expr::E<()>)
+//@contract
+    ensures
+      // the node built for `e <op> e2` has e and e2 as its operands, the operator just read, and a range that encloses both operands
+      r matches expr::E::Binary(n) && *n.e1 == e && *n.e2 == e2 && n.operator == operator
+        && encloses(n.common.loc, e.range()) && encloses(n.common.loc, e2.range()),  // :binary_expression_range_encloses_both_operands
+//@atend
+  e
+//@end
+
+//@extractblock crates/samlang-parser/src/source_parser.rs :: mod expression_parser / fn parse_concat_with_start
+//@from let loc =
+//@to e2: Box::new(e2), })
+//@close ;
+//@wrap fn concat_node(parser: &mut SourceParser, mut e: expr::E<()>, e2: expr::E<()>, operator: expr::BinaryOperator, operator_preceding_comments: CommentReference) -> (r: expr::E<()>)
+//@contract
+    ensures
+      // the node built for `e <op> e2` has e and e2 as its operands, the operator just read, and a range that encloses both operands
+      r matches expr::E::Binary(n) && *n.e1 == e && *n.e2 == e2 && n.operator is CONCAT
+        && encloses(n.common.loc, e.range()) && encloses(n.common.loc, e2.range()),  // :binary_expression_range_encloses_both_operands
+//@atend
+  e
+//@end
+
+// ---- the two prefix-operator arms of parse_unary_expression (`!e`, `-e`)
+
+//@extractblock crates/samlang-parser/src/source_parser.rs :: mod expression_parser / fn parse_unary_expression
+//@from #1 let loc =
+//@to operator: expr::UnaryOperator::NOT, argument: Box::new(argument), })
+//@wrap fn not_node(parser: &mut SourceParser, peeked_loc: Location, argument: expr::E<()>, associated_comments: Vec<Comment>) -> (r: expr::E<()>)
+//@contract
+    ensures
+      // the node built for a prefix operator runs from the operator token to the end of its argument
+      r matches expr::E::Unary(n) && *n.argument == argument && n.operator is NOT
+        && encloses(n.common.loc, peeked_loc) && encloses(n.common.loc, argument.range()),  // :prefix_expression_range_encloses_operator_and_argument
+//@end
+
+//@extractblock crates/samlang-parser/src/source_parser.rs :: mod expression_parser / fn parse_unary_expression
+//@from #2 let loc =
+//@to operator: expr::UnaryOperator::NEG, argument: Box::new(argument), })
+//@wrap fn neg_node(parser: &mut SourceParser, peeked_loc: Location, argument: expr::E<()>, associated_comments: Vec<Comment>) -> (r: expr::E<()>)
+//@contract
+    ensures
+      // the node built for a prefix operator runs from the operator token to the end of its argument
+      r matches expr::E::Unary(n) && *n.argument == argument && n.operator is NEG
+        && encloses(n.common.loc, peeked_loc) && encloses(n.common.loc, argument.range()),  // :prefix_expression_range_encloses_operator_and_argument
 //@end
 
 // =====================================================================================
